@@ -4,6 +4,7 @@ import Tibc.LC.Status
 import Tibc.Commitment.Verify
 import Tibc.LC.Bsc
 import Tibc.LC.Eth
+import Tibc.Host.Keys
 /-
   Line-protocol driver: reads one operation per line on stdin, runs the model, prints one
   canonical outcome line per operation. Core Lean only.
@@ -474,6 +475,33 @@ def stepLine (st : St) (line : String) : St × String :=
       let r := match TM.status cl now with | .active => "Active" | .expired => "Expired" | .unknown => "Unknown"
       (st, s!"res={r}")
     | _, _ => bad
+  | ["hostkey", fam, src, dst, seq] =>
+    match unhex src, unhex dst, seq.toNat? with
+    | some src, some dst, some n =>
+      let path : Option Str :=
+        if fam == "commit" then some (Host.packetCommitmentPath src dst n)
+        else if fam == "ack" then some (Host.packetAcknowledgementPath src dst n)
+        else if fam == "receipt" then some (Host.packetReceiptPath src dst n)
+        else if fam == "clean" then some (Host.cleanPacketCommitmentPath src dst)
+        else if fam == "maxack" then some (Host.maxAckSeqPath src dst)
+        else if fam == "nextsend" then some (Host.nextSequenceSendPath src dst)
+        else none
+      match path with
+      | some p => (st, s!"res={hexOf p}")
+      | none => bad
+    | _, _, _ => bad
+  | ["hostparse", kind, path] =>
+    match unhex path with
+    | some p =>
+      if kind == "pair" then
+        match Host.parseChannelPath p with
+        | some (a, b) => (st, s!"res=ok {hexOf a} {hexOf b}")
+        | none => (st, "res=error")
+      else
+        match Host.parseSeqPath p with
+        | some (a, b, n) => (st, s!"res=ok {hexOf a} {hexOf b} {n}")
+        | none => (st, "res=panic")
+    | none => bad
   | ["status", kind, ts, period, now] =>
     match period.toNat?, now.toNat? with
     | some pd, some now =>
